@@ -127,6 +127,24 @@ def cases(tier, seed):
             spec["include"] = {"kind": "all"}      # (include lists name glyphs, the exploded copies share their names)
         out.append({"cid": f"c14-{seed}-{k}", "lib": rng.choice(["ufoLib2", "defcon"]), "filter": spec, "steps": steps,
                     "interp": interp, "again": kind == "PropagateAnchors"})
+    # the separate glyph set as a PLAIN dict of glyph copies, and every filter with its non-default options
+    rng2 = random.Random(seed * 104729 + 140014)
+    OPTS = {"CubicToQuadratic": [{"rememberCurveType": True}, {"rememberCurveType": True, "reverseDirection": False}, {"conversionError": 0.002}],
+            "DecomposeComponents": [{}], "FlattenComponents": [{}], "ReverseContourDirection": [{}], "SortContours": [{}],
+            "DecomposeTransformedComponents": [{}], "PropagateAnchors": [{}], "RemoveOverlaps": [{"backend": "pathops"}, {}],
+            "Transformations": [{"OffsetX": 10, "ScaleY": 50, "Origin": 1}]}
+    kinds_ = sorted(OPTS)
+    for k in range(45 if tier == "quick" else 500):
+        kind = "CubicToQuadratic" if k % 3 == 0 else kinds_[(k // 3) % len(kinds_)]
+        steps, names = [], set()
+        for j in range(2):
+            glyphs = gen.glyphset(rng2, kinds=["line", "cubic"] if kind in ("RemoveOverlaps", "CubicToQuadratic") else None)
+            names |= set(glyphs)
+            steps.append({"glyphs": glyphs, "info": {"capHeight": 700, "xHeight": 500}, "separate": True, "plain": (k + j) % 4 != 3})
+        spec = {"name": kind, "include": {"kind": "all"} if k % 2 else _include(rng2, sorted(names)),
+                "kwargs": dict(OPTS[kind][(k // 3) % len(OPTS[kind])])}
+        out.append({"cid": f"c14-{seed}-p{k}", "lib": rng2.choice(["ufoLib2", "defcon"]), "filter": spec, "steps": steps,
+                    "interp": False, "again": False})
     return out
 
 
